@@ -33,7 +33,9 @@ RULE = ("exhaustive part: see exhaustive_scope. Sampled part: a case = one field
         "values, their neighbours and the domain extremes (closed/open/half-open/unbounded; NumericRange/DateRange objects via "
         "search() and docs(), and the query language) + point queries + ~10 tiered_ranges calls checked as a pure function on the wide "
         "domain + sort (column and term based) + out-of-domain probes at indexing and query time; 20% of the cases have "
-        "multi-valued documents. "
+        "multi-valued documents. Every 25th case is a big one: a segment of 4120-4950 documents (or 2100-2900 plus a second "
+        "segment), uniformly drawn values, optional deletions, 10 narrow / wide / open ranges through docs(), search(), "
+        "scored=False and limit=3 (len and docs()), so that sparse matches straddle the 2048-document parts of the buffered union. "
         "A searched range is non-trivial when its expected result is neither empty nor every document; distinct = distinct "
         "(field configuration, flags, None-pattern, bound classes, result-size class).")
 ASSUMPTIONS = [
@@ -64,13 +66,13 @@ FLOORS = {
               "range.searched": 4500, "range.nontrivial": 3000, "range.path.parser": 900, "point.searched": 700,
               "tiered.sampled": 1500, "codec.values": 5000, "sort.checked": 300, "ood.index": 1200, "ood.query": 1100,
               "cfg.int": 90, "cfg.float": 40, "cfg.decimal": 25, "cfg.datetime": 25, "cfg.multivalued": 30,
-              "range.zero_sign_relaxed": 3},
+              "range.zero_sign_relaxed": 3, "range.big_searched": 80, "range.big_sparse_across_parts": 25},
     "thorough": {"exhaustive.split_ranges": 263168, "exhaustive.tiered_ranges": 2405448, "exhaustive.codec8": 512,
                  "exhaustive.searched": 400908,
                  "range.searched": 32000, "range.nontrivial": 23000, "range.path.parser": 7000, "point.searched": 5000,
                  "tiered.sampled": 11500, "codec.values": 36000, "sort.checked": 2100, "ood.index": 10000, "ood.query": 8000,
                  "cfg.int": 670, "cfg.float": 260, "cfg.decimal": 190, "cfg.datetime": 200, "cfg.multivalued": 250,
-                 "range.zero_sign_relaxed": 40},
+                 "range.zero_sign_relaxed": 40, "range.big_searched": 500, "range.big_sparse_across_parts": 150},
 }
 
 
@@ -809,6 +811,98 @@ def sampled_case(ctx, rng, idx):
     return ("sampled", cfg.key(), nseg, multi, tuple(sorted(set(shapes)))), nontrivial_any, w
 
 
+def big_case(ctx, rng, idx):
+    """One segment beyond 4096 documents (or 2100-2900 + a second one), every document one value drawn uniformly from the
+    domain, optional deletions; ranges that select a handful of documents far apart (the expanded term list is consumed
+    through the buffered union matchers, whose 2048-document parts the sparse matches straddle)."""
+    from whoosh import fields, query
+    from whoosh.filedb.filestore import RamStorage
+    cfg = pick_cfg(rng)
+    if cfg.kind == "int" and cfg.bits == 8:
+        cfg.bits = 16
+    w = {"field": cfg.tag(), "sortable": cfg.sortable, "big": True}
+    field = cfg.make()
+    two = rng.random() < 0.35
+    n1 = rng.randint(2100, 2900) if two else rng.randint(4120, 4950)
+    n2 = rng.randint(50, 2300) if two else 0
+    vals = uniform_values(cfg, rng, n1 + n2 - 40) + [gen_value(cfg, rng) for _ in range(40)]
+    vals = [0.5 if (isinstance(v, float) and math.isinf(v)) else v for v in vals]
+    rng.shuffle(vals)
+    schema = fields.Schema(id=fields.STORED, n=field)
+    ix = RamStorage().create_index(schema)
+    wr = ix.writer()
+    for i, v in enumerate(vals):
+        if i == n1:
+            wr.commit(merge=False)
+            wr = ix.writer()
+        wr.add_document(id=i, n=v)
+    wr.commit(merge=False)
+    deleted = set()
+    if rng.random() < 0.4:
+        wr = ix.writer()
+        for dn in rng.sample(range(len(vals)), rng.choice([3, 40, 400])):
+            wr.delete_document(dn)   # documents were added in id order with merge=False: docnum == id
+            deleted.add(dn)
+        wr.commit(merge=False)
+    w.update(segments=[n1, n2] if two else [n1], deleted=len(deleted))
+    docs = [(v,) for v in vals]
+    order = sorted(set(vals), key=_tk)
+    Range = query.DateRange if cfg.kind == "datetime" else query.NumericRange
+    nontrivial = False
+    with ix.searcher() as s:
+        ids = {dn: s.stored_fields(dn)["id"] for dn in s.reader().all_doc_ids()}
+        if set(ids.values()) != set(range(len(vals))) - deleted:
+            ctx.fail("index", "big:documents-lost(%s)" % _ck(cfg), w, "live ids differ")
+            return ("big-index-failed", cfg.key()), False, w
+        for qi in range(10):
+            i = rng.randrange(len(order))
+            j = min(len(order) - 1, i + rng.choice([0, 1, 2, 3, 5, 8, 13, 60, 700]))
+            stt, en = order[i], order[j]
+            if rng.random() < 0.1:
+                stt = None
+                en = order[min(j, rng.choice([0, 2, 9]))]
+            elif rng.random() < 0.1:
+                en = None
+                stt = order[max(i, len(order) - rng.choice([1, 3, 10]))]
+            sx, ex = rng.random() < 0.3, rng.random() < 0.3
+            must, may = expected_sets(docs, stt, en, sx, ex)
+            must, may = must - deleted, may - deleted
+            qw = dict(w, start=stt, end=en, startexcl=sx, endexcl=ex, expected_ids=sorted(must)[:40], expected_count=len(must))
+            path = rng.choice(["search", "docs", "docs", "limit", "unscored"])
+            mech = "big:%s(%s)" % (Range.__name__, _ck(cfg))
+            ctx.count("range.big_searched")
+            try:
+                q = Range("n", stt, en, sx, ex)
+                if path == "docs":
+                    got = sorted(ids[dn] for dn in q.docs(s))
+                elif path == "limit":
+                    r = s.search(q, limit=3)
+                    got = sorted(ids[dn] for dn in r.docs())
+                    if len(r) != len(got):
+                        ctx.fail("range", mech + ":len(results)", dict(qw, path=path), "len=%d docs()=%d" % (len(r), len(got)))
+                        break
+                elif path == "unscored":
+                    got = sorted(h["id"] for h in s.search(q, limit=None, scored=False))
+                else:
+                    got = sorted(h["id"] for h in s.search(q, limit=None))
+            except Exception as e:  # noqa
+                ctx.fail("range", "%s:exc:%s@%s" % (mech, type(e).__name__, _wsite(e)), dict(qw, path=path), repr(e))
+                break
+            if 0 < len(must) < len(vals) - len(deleted):
+                nontrivial = True
+                ctx.count("range.big_nontrivial")
+                if len(must) <= 12 and (max(must) - min(must)) > 2048:
+                    ctx.count("range.big_sparse_across_parts")
+            if not (must <= set(got) <= may) or len(set(got)) != len(got):
+                how = "too-many" if set(got) - may else "too-few"
+                ctx.fail("range", "%s:%s" % (mech, how), dict(qw, path=path, got_ids=got[:60]),
+                         "extra %r missing %r" % (sorted(set(got) - may)[:8], sorted(must - set(got))[:8]))
+                break
+    ix.close()
+    return ("big", cfg.kind, cfg.signed, bool(cfg.step), two, bool(deleted)), nontrivial, w
+
+
+
 def _ck(cfg):
     """Config key for mechanism names: kind+bits+sign, no random data."""
     if cfg.kind == "int":
@@ -910,6 +1004,11 @@ def run(ctx):
         for idx in ctx.cases(quick=150, thorough=250):
             rng = ctx.rng(idx)
             ctx.reseed_global(idx)
+            if idx % 25 == 7:
+                ctx.count("cfg.big_cases")
+                shape, nontrivial, w = big_case(ctx, rng, idx)
+                ctx.case(shape, nontrivial, sample=None)
+                continue
             shape, nontrivial, w = sampled_case(ctx, rng, idx)
             ctx.case(shape, nontrivial, sample=w if idx % 23 == 0 else None)
     if (ctx.replay_idx is None and not ctx.quick) or ctx.replay_idx == -2:
